@@ -90,6 +90,12 @@ func sharedSpec(cfg fw.Config, rec *fw.Rec, round int) {
 		w, err := spec.Walk(context.Background(), coreState(jobs[g].st), fw.Deep(jobs[g].msgs).([]interface{}), ctl, nil)
 		jobs[g].solo = traceOf(w, err)
 	}
+	if round%2 == 1 {
+		// a control with breakpoints (that never hold), first used by all the walks at once
+		never := func(context.Context, *core.State) bool { return false }
+		ctl = &core.Control{Limit: 20, Breakpoints: map[string]core.Breakpoint{"never": never, "also-never": never, "b": never}}
+		rec.Bucket("shared_control_with_breakpoints_first_used_concurrently")
+	}
 	snap := ref.SnapSpec(spec)
 	var wg sync.WaitGroup
 	start := make(chan struct{})
@@ -455,7 +461,7 @@ func Run(cfg fw.Config, rec *fw.Rec) {
 	runtime.GOMAXPROCS(procs)
 	rec.Bucket(fmt.Sprintf("gomaxprocs_%d", procs))
 	rec.Rule = "shared part: one compiled spec object (random 5-node spec plus property-variable, inequality, @var-target, guarded and permanent-binding branches; native and ECMAScript) walked by 16/32/64 goroutines x 6 walks on distinct machine states, each result compared with the solo result computed beforehand, structural snapshot of the spec compared afterwards; swap part: 16 walkers over an UpdatableSpec while a swapper installs one of 4 versions whose every action, guard and branch target stamps its version; each walk must carry stamps of exactly one version; derived part: the swapper derives each next version from the installed one with Spec.Copy, re-stamps and compiles it while 8 walkers walk the version they obtained (each version stamps through a helper it installs on a built-in object if none is there, so anything an execution inherits from another version's execution shows as a foreign stamp); ext part: 16 goroutines x 25 walks over a spec whose actions and guards use the extended interpreter's _.match, _.cronNext (two fixed expressions) and _.randstr, compiled with the standard interpreter map; child built with -race, GOMAXPROCS 2/4/16 by batch; non-trivial = round in which every concurrent result agreed; distinct by spec / round"
-	rec.Required = []string{"shared_rounds_equal_to_solo", "shared_native", "shared_ecma", "swap_rounds_coherent", "swap_walks_straddling_a_swap", "derived_rounds_coherent", "shared_ext_rounds_equal_to_solo"}
+	rec.Required = []string{"shared_control_with_breakpoints_first_used_concurrently", "shared_rounds_equal_to_solo", "shared_native", "shared_ecma", "swap_rounds_coherent", "swap_walks_straddling_a_swap", "derived_rounds_coherent", "shared_ext_rounds_equal_to_solo"}
 	rec.Assume = []string{"the race detector reports only races that occur in the interleavings produced; absence over N runs is evidence, not proof", "a processing call obtains the spec once via Specter.Spec(), as sio and mcrew do"}
 	rounds := cfg.Pick(24, 60)
 	for round := 0; round < rounds; round++ {
